@@ -45,6 +45,9 @@ def dtypeCodes : List (String × Nat) := [("int8", 12), ("int16", 13), ("int32",
 def genericTypes : List (String × Nat) := [("datetime", 21), ("float", 7), ("int", 14), ("str", 20)]
 def segWeights : List Nat := [128, 64, 32, 16, 8, 4, 2, 1]
 def hcPattern : String := "[A-Z0-9_-]+"
+/-- the checks of `LogicalFile.check_objects`, in the order they are made, and the steps of a write -/
+def checkOrder : List String := ["_check_completeness", "_check_channels_assigned_to_frames", "_check_defining_origin_params", "_check_references"]
+def writeSteps : List String := ["check_objects", "generate_logical_records", "DLISWriter", "write_storage_unit_label", "write_logical_records"]
 /-- (set type, logical record type, explicit flag, template labels) -/
 def sets : List (List Nat × Nat × Bool × List (List Nat)) := [
   (cp "AXIS", 2, true, [cp "AXIS-ID", cp "COORDINATES", cp "SPACING"]),
